@@ -144,7 +144,8 @@ section limiter
 open KG.Model.LocalLimiter KG.Spec.LocalLimiter KG.Lemmas.LocalLimiter
 
 /-- **The property over every history** of `Sync` (resize, type change, delete, re-add, duplicates,
-    re-submission), arrivals and completions on any number of clusters: every answer of the limiter is the
+    re-submission), limiter-mode switches (`ResetLimiter` local ↔ remote, which keep every cache and limiter:
+    a mode switch is not a reconfiguration of any schema), arrivals and completions on any number of clusters: every answer of the limiter is the
     one the judge demands — admitted iff fewer than `M` of the requests admitted under the schema since it
     last became a max-in-flight schema are unfinished, `M` being the limit in force at that moment; never a
     refusal where no limit applies; never a panic on arrival. -/
@@ -180,6 +181,15 @@ example : KG.Model.LocalLimiter.run World.init witness =
     [.synced, .acquired true, .synced, .acquired true, .released true, .acquired false] := by decide
 example : judge witness [.synced, .acquired true, .synced, .acquired true, .released true, .acquired true] = some 5 := by
   decide
+/-! non-vacuity: a limiter-mode switch (`ResetLimiter` remote, then the `Sync` of the unchanged list, as
+    `ClusterInfo.Sync` does when the GlobalRateLimiter gate flips) with a request in flight at `M = 1`: the
+    model keeps refusing; the judge rejects an implementation that admits after the switch. -/
+def switchHistory : List Op :=
+  [.sync [99] [witnessSchema (some 1) none], .acquire [99] [102, 99] true, .reset [99] modeRemote,
+   .sync [99] [witnessSchema (some 1) none], .acquire [99] [102, 99] true]
+example : KG.Model.LocalLimiter.run World.init switchHistory =
+    [.synced, .acquired true, .synced, .synced, .acquired false] := by decide
+example : judge switchHistory [.synced, .acquired true, .synced, .synced, .acquired true] = some 4 := by decide
 example : KG.Model.LocalLimiter.Reachable (exec World.init witness) := ⟨witness, rfl⟩
 example : ¬ addresses (exec World.init witness) (.acquire [99] [120] true) [99] [102, 99] := by
   simp [addresses]
